@@ -562,3 +562,89 @@ func init() {
 	vHarnesses["H_C05_interleave"] = H_C05_interleave
 	vHarnesses["H_C05_condition"] = H_C05_condition
 }
+
+// ---- regex leaves: whole-field bytewise matching on subjects over a small alphabet ----
+
+// c05Alpha returns n symbolic bytes over {'a','b','\n',0xff}.
+func c05Alpha(name string, n int) []byte {
+	bs := vNondetBytes(name, n)
+	for _, b := range bs {
+		vAssume(vOr(vOr(b == 'a', b == 'b'), vOr(b == '\n', b == 0xff)))
+	}
+	return bs
+}
+
+// c05RefMatch is a hand-written reference for the pattern corpus (RE2 semantics on bytes,
+// anchored at both ends: the filter must match the whole field).
+func c05RefMatch(pat int, s []byte) bool {
+	switch pat {
+	case 0: // a
+		return len(s) == 1 && s[0] == 'a'
+	case 1: // a.   ('.' does not match newline)
+		return len(s) == 2 && vAnd(s[0] == 'a', s[1] != '\n')
+	case 2: // a\C  (any byte)
+		return len(s) == 2 && s[0] == 'a'
+	case 3: // .*
+		ok := true
+		for _, b := range s {
+			ok = vAnd(ok, b != '\n')
+		}
+		return ok
+	case 4: // [ab]+
+		if len(s) == 0 {
+			return false
+		}
+		ok := true
+		for _, b := range s {
+			ok = vAnd(ok, vOr(b == 'a', b == 'b'))
+		}
+		return ok
+	case 5: // a|b
+		return len(s) == 1 && vOr(s[0] == 'a', s[0] == 'b')
+	case 6: // \xff as a raw byte in the pattern
+		return len(s) == 1 && s[0] == 0xff
+	}
+	return false
+}
+
+var c05Patterns = []string{"a", "a.", `a\C`, ".*", "[ab]+", "a|b", "\xff", "("}
+
+func H_C05_regex() {
+	s, _ := c05Server()
+	key := c05Alpha("key", vChoice("key.len", 1, 2))
+	qual := c05Alpha("qual", vChoice("qual.len", 0, 2))
+	val := c05Alpha("val", vChoice("val.len", 0, 2))
+	s.tables[vTable].rows.ReplaceOrInsert(&btpb.Row{Key: key, Families: []*btpb.Family{{Name: "f", Columns: []*btpb.Column{{Qualifier: qual,
+		Cells: []*btpb.Cell{{TimestampMicros: 1000, Value: val}}}}}}})
+	pat := vChoice("pattern", 0, len(c05Patterns)-1)
+	p := []byte(c05Patterns[pat])
+	var f *btpb.RowFilter
+	var subject []byte
+	switch vChoice("field", 0, 2) {
+	case 0:
+		f = &btpb.RowFilter{Filter: &btpb.RowFilter_RowKeyRegexFilter{RowKeyRegexFilter: p}}
+		subject = key
+	case 1:
+		f = &btpb.RowFilter{Filter: &btpb.RowFilter_ColumnQualifierRegexFilter{ColumnQualifierRegexFilter: p}}
+		subject = qual
+	case 2:
+		f = &btpb.RowFilter{Filter: &btpb.RowFilter_ValueRegexFilter{ValueRegexFilter: p}}
+		subject = val
+	}
+	st := &vReadStream{}
+	err := s.ReadRows(&btpb.ReadRowsRequest{TableName: vTable, Filter: f}, st)
+	if pat == len(c05Patterns)-1 {
+		vAssert(err != nil && vCodeOf(err) == codes.InvalidArgument, "regex:bad-pattern-invalid-argument")
+		vReach("c05-regex-bad")
+		return
+	}
+	vAssert(err == nil, "regex:ok")
+	rows, ok := vDecode(st.msgs)
+	vAssert(ok, "regex:stream-wellformed")
+	vAssert((len(rows) == 1) == c05RefMatch(pat, subject), "regex:row-returned-iff-whole-field-matches-bytewise")
+	vReach("c05-regex")
+}
+
+func init() {
+	vHarnesses["H_C05_regex"] = H_C05_regex
+}
